@@ -50,6 +50,11 @@ type Fx struct {
 	noGuard       bool
 	inAtomic      bool
 	loadFromEntry bool
+	pathMode      bool  // explore paths separately (flag paths)
+	prefix        []int // decisions to replay
+	taken         []int
+	arity         []int
+	tailStmt      ast.Stmt // last statement of the function body when only a bare return follows it
 	loopHeads     map[string]*State
 	loopEntries   map[string]*State
 }
@@ -249,6 +254,16 @@ func (fx *Fx) branch(st *State, cond string, thenF, elseF func(*State)) {
 		return
 	}
 	cd := fx.c.define("c", "Bool", cond)
+	if fx.pathMode && !fx.c.dry {
+		if fx.decide(2) == 0 {
+			st.assume(cd)
+			thenF(st)
+		} else {
+			st.assume("(not " + cd + ")")
+			elseF(st)
+		}
+		return
+	}
 	t := st.clone()
 	t.assume(cd)
 	e := st.clone()
@@ -929,4 +944,19 @@ func (fx *Fx) assumeRecvInv(st *State, v Val, t types.Type, pos token.Pos) {
 		st.assume(fx.specBool(env, ri.Expr))
 		fx.c.warn("assumed message invariant of %s: %s", name, ri.Text)
 	}
+}
+
+// decide: the next decision of the path being explored (n alternatives); beyond the prefix the first alternative.
+func (fx *Fx) decide(n int) int {
+	pos := len(fx.taken)
+	d := 0
+	if pos < len(fx.prefix) {
+		d = fx.prefix[pos]
+	}
+	if d >= n {
+		d = n - 1
+	}
+	fx.taken = append(fx.taken, d)
+	fx.arity = append(fx.arity, n)
+	return d
 }
